@@ -50,8 +50,8 @@ func snapSlice(x []int) []int {
 	return append([]int{}, x...)
 }
 
-func eqInt(x, y int) bool   { return x == y }
-func eqBool(x, y bool) bool { return x == y }
+func eqInt(x, y int) bool    { return x == y }
+func eqBool(x, y bool) bool  { return x == y }
 func eqStr(x, y string) bool { return x == y }
 
 func sliceEq(a, b []int) bool {
